@@ -527,6 +527,19 @@ pub fn stress(input: &str, out: &mut impl std::io::Write) {
             }
         }));
     }
+    // every call must return: threads that are still running after the deadline are stuck
+    let dl = Instant::now() + Duration::from_secs(40);
+    while hs.iter().any(|h| !h.is_finished()) && Instant::now() < dl {
+        std::thread::sleep(Duration::from_millis(5));
+    }
+    let stuck = hs.iter().filter(|h| !h.is_finished()).count();
+    if stuck > 0 {
+        writeln!(out, "X hung {} of {} threads never finished their calls ({} calls completed)", stuck, threads,
+                 total_calls.load(std::sync::atomic::Ordering::SeqCst)).unwrap();
+        writeln!(out, "END").unwrap();
+        out.flush().unwrap();
+        std::process::exit(0);
+    }
     for h in hs {
         let _ = h.join();
     }
